@@ -46,6 +46,10 @@ def render_def(d):
             if f['dflt']:
                 line += ' = ' + default_literal(f['t'])
             out.append(line)
+        for e in _seq(d.get('examples')):
+            out.append('    example %s' % e['label'])
+            for a in _seq(e['assigns']):
+                out.append('        %s = %s' % (a['n'], {'int': '1', 'str': '"x"', 'null': 'null'}[a['lit']]))
     elif k == 'union':
         hdr = ('union_closed ' if d['closed'] else 'union ') + d['n']
         if d['ext']['k'] == 'tref':
@@ -121,14 +125,16 @@ def project_api(api):
                                          for f in dt.fields],
                               'all_fields': [f.name for c in chain[::-1] for f in c.fields],
                               'subs': subs, 'hassubs': dt.has_enumerated_subtypes(),
-                              'catchall': bool(dt.has_enumerated_subtypes() and dt.is_catch_all())})
+                              'catchall': bool(dt.has_enumerated_subtypes() and dt.is_catch_all()),
+                              'examples': sorted(dt.get_examples().keys())})
             else:
                 own = [f for f in dt.fields]
                 types.append({'k': 'union', 'n': dt.name, 'parent': parent, 'closed': dt.closed,
                               'tags': [f.name for f in own],
                               'tagtypes': [({'k': 'voidtag'} if isinstance(f.data_type, T.Void)
                                             else project_type(f.data_type, ns.name)) for f in own if not f.catch_all],
-                              'all_tags': [f.name for f in dt.all_fields if not f.catch_all]})
+                              'all_tags': [f.name for f in dt.all_fields if not f.catch_all],
+                              'examples': sorted(dt.get_examples().keys())})
         for a in ns.aliases:
             aliases.append({'k': 'alias', 'n': a.name, 't': project_type(a.data_type, ns.name)})
         for r in ns.routes:
@@ -158,9 +164,11 @@ def norm_denote(den):
             d.pop('imports', None)
             if 'parent' in d:
                 d['parent'] = list(d['parent']) if d['parent'] else []
-            for key in ('fields', 'subs', 'tags', 'tagtypes', 'all_fields', 'all_tags', 'by'):
+            for key in ('fields', 'subs', 'tags', 'tagtypes', 'all_fields', 'all_tags', 'by', 'examples'):
                 if key in d and not isinstance(d[key], list):
                     d[key] = []
+            if 'examples' in d:
+                d['examples'] = sorted(d['examples'])
             return d
         out.append({'ns': nsd['ns'],
                     'types': sorted((fix(t) for t in _seq(nsd['types'])), key=lambda t: t['n']),
